@@ -162,4 +162,3 @@ func vCompareFull(m vModel, got map[vKey]map[string]vVal) []string {
 	}
 	return diffs
 }
-
